@@ -289,6 +289,12 @@ func ruleC02Dropped(p *Prog, r *Res) {
 			if o := objOf(cond); o != nil && knownDropped[o] && val {
 				return false // counter already non-zero on this edge
 			}
+			// the same fact written out (or a named boolean expanded by the CFG builder): resultDropped != 0 holds
+			if be, ok := cond.(*ast.BinaryExpr); ok && be.Op == token.NEQ && val && isFieldSel(info, be.X, "resultData", "resultDropped") {
+				if k, isC := constInt(info, be.Y); isC && k == 0 {
+					return false
+				}
+			}
 			if be, ok := cond.(*ast.BinaryExpr); ok && (be.Op == token.EQL || be.Op == token.NEQ) {
 				if o := objOf(be.X); o != nil && groupVar[o] && isMinusOne(be.Y) {
 					if (be.Op == token.NEQ) == val {
